@@ -59,6 +59,70 @@ def canon_compares(tree: ast.AST) -> int:
     return flips
 
 
+def _is_boolish(e) -> bool:
+    return isinstance(e, (ast.BoolOp, ast.Compare)) or (isinstance(e, ast.UnaryOp) and isinstance(e.op, ast.Not))
+
+
+def _is_log_stmt(st) -> bool:
+    if isinstance(st, ast.Expr) and isinstance(st.value, ast.Constant):
+        return True
+    if isinstance(st, ast.Expr) and isinstance(st.value, ast.Call):
+        f = st.value.func
+        if isinstance(f, ast.Name) and f.id == "print":
+            return True
+        if isinstance(f, ast.Attribute) and f.attr in ("debug", "info", "warning", "error", "critical"):
+            b = f.value
+            while isinstance(b, ast.Attribute):
+                b = b.value
+            return isinstance(b, ast.Name) and b.id in ("logger", "logging", "log")
+    return False
+
+
+def inline_condition_temps(tree: ast.AST) -> int:
+    """`cond = <boolean expression>` immediately followed (log statements aside) by an if/while
+    whose test is the only reader of `cond`: the test is given the expression itself, so a
+    condition extracted into a well-named local and the inline condition are one program to
+    the rules. Nothing can change the operands between the two adjacent statements."""
+    import copy as _copy
+    n_inlined = 0
+    for fn in [x for x in ast.walk(tree) if isinstance(x, (ast.FunctionDef, ast.AsyncFunctionDef))]:
+        loads = {}
+        stores = {}
+        for x in ast.walk(fn):
+            if isinstance(x, ast.Name):
+                (loads if isinstance(x.ctx, ast.Load) else stores).setdefault(x.id, []).append(x)
+        for holder in ast.walk(fn):
+            for field in ("body", "orelse", "finalbody"):
+                b = getattr(holder, field, None)
+                if not (isinstance(b, list) and b and isinstance(b[0], ast.stmt)):
+                    continue
+                for i, st in enumerate(b):
+                    if not (isinstance(st, ast.Assign) and len(st.targets) == 1 and isinstance(st.targets[0], ast.Name) and _is_boolish(st.value)):
+                        continue
+                    nm = st.targets[0].id
+                    if len(stores.get(nm, [])) != 1 or len(loads.get(nm, [])) != 1:
+                        continue
+                    j = i + 1
+                    while j < len(b) and _is_log_stmt(b[j]):
+                        j += 1
+                    if j >= len(b) or not isinstance(b[j], (ast.If, ast.While)):
+                        continue
+                    use = loads[nm][0]
+                    if not any(y is use for y in ast.walk(b[j].test)):
+                        continue
+
+                    class R(ast.NodeTransformer):
+                        def visit_Name(self, node):
+                            if node is use:
+                                return _copy.deepcopy(st.value)
+                            return node
+
+                    b[j].test = R().visit(b[j].test)
+                    ast.fix_missing_locations(b[j])
+                    n_inlined += 1
+    return n_inlined
+
+
 def _link(tree: ast.AST, mod: Module) -> None:
     """Parent links, module back-pointer and enclosing function qualname."""
 
@@ -118,6 +182,7 @@ class Tree:
                 except (SyntaxError, UnicodeDecodeError) as exc:
                     raise AnalysisError(f"cannot parse {rel}: {exc}") from exc
                 if os.environ.get("SA_NO_CANON") != "1":
+                    inline_condition_temps(tree)
                     canon_compares(tree)
                 mod = Module(rel, path, src, tree, sha)
                 _link(tree, mod)
